@@ -633,6 +633,65 @@ def f55():
 
 
 
+@witness("F57", ["C15", "C06"])
+def f57():
+    from cincoconfig import Schema, ListField, IntField, ValidationError, validator, make_type
+    item = Schema()
+    item.lo = IntField(default=0)
+    item.hi = IntField(default=10)
+
+    @validator(item)
+    def lo_le_hi(cfg):     # noqa
+        if cfg.lo > cfg.hi:
+            raise ValueError("lo > hi")
+    s = Schema()
+    s.a = ListField(item)
+    s.b = ListField(item)
+    cfg = s()
+    cfg.a = [{"lo": 1, "hi": 2}]
+    cfg.b = [{"lo": 5, "hi": 6}]
+    cfg.a[0].lo = 100
+    moved = cfg.a[0]
+    refused = later = whole = None
+    try:
+        cfg.b.append(moved)
+    except ValidationError as e:
+        refused = e.ref_path
+    try:
+        cfg.a[0].lo = "x"
+    except ValidationError as e:
+        later = e.ref_path
+    try:
+        cfg.validate()
+    except ValidationError as e:
+        whole = e.ref_path
+    links = (moved._parent is cfg, moved._key, moved._container is cfg._data["a"])
+    # a detached configuration refused by a list and then assigned to a sub-configuration slot
+    it = Schema()
+    it.n = IntField(required=True)
+    IT = make_type(it, "IT")
+    s2 = Schema()
+    s2.one = IT
+    s2.items = ListField(IT)
+    c2 = s2()
+    c2.items = [{"n": 1}]
+    o = IT()
+    try:
+        c2.items.append(o)
+    except ValidationError:
+        pass
+    c2.one = o
+    sub = None
+    try:
+        c2.validate()
+    except ValidationError as e:
+        sub = e.ref_path
+    got = (refused, later, whole, links, sub)
+    return got == ("b[1]", "a[0].lo", "a[0]", (True, "a", True), "one.n"), \
+        "a configuration refused by a typed list keeps its place: %r" % (got,)
+
+
+
 @witness("P1", ["C01", "C05"])
 def p1():
     """not a repaired defect: a standing probe of a corner no model covers (case maps that change the length of a string:
